@@ -71,6 +71,17 @@ def main():
                     m = rnd.choice(spots)
                     text = text[:m.start()] + "}" + text[m.end():]
                     ck.count("systems-with-a-non-generable-component")
+            if rnd.random() < 0.4:
+                # one component whose molecules keep an open descriptor (a plain token that ends in a descriptor): the generator must
+                # refuse to yield it (`fully_generated`), although every component is "generable"
+                import re
+                parts = re.split(r"(\.\|[^|]*\|)", text)
+                idx = [k for k in range(0, len(parts), 2) if parts[k] and "{" not in parts[k] and "[" not in parts[k]]
+                if idx:
+                    k = rnd.choice(idx)
+                    parts[k] = parts[k] + "[$]"
+                    text = "".join(parts)
+                    ck.count("systems-with-a-component-that-stays-open")
             system = sysrun.parse_system(text, sysmass)
         if system is None:
             continue
